@@ -64,6 +64,18 @@ func c08CheckText(c *run.Ctx, id, text, style string, plain *doc.Node) bool {
 		c.Count("yaml_legs_skipped_leading_ws_multiline", 1)
 		return true
 	}
+	hasMergeSpelling := false
+	plain.Walk(func(x *doc.Node) {
+		for _, pr := range x.Map {
+			if pr.Key == "<<" && !pr.Merge {
+				hasMergeSpelling = true
+			}
+		}
+	})
+	if hasMergeSpelling {
+		c.Count("yaml_legs_skipped_key_spelled_like_a_merge_K4", 1)
+		return true
+	}
 	yb, yn, err := marshalYAMLTree(p)
 	if err != nil {
 		return viol(err.Error(), map[string]any{"yaml": clip(string(yb), 3000)})
